@@ -290,6 +290,12 @@ func TestVerifC15Encode(t *testing.T) {
 		if !IsStackCounter(name) {
 			t.Fatalf("encoded stack name not recognised as a stack counter")
 		}
+		if strings.Contains(dec, "\n") != IsStackCounter(dec) {
+			t.Fatalf("IsStackCounter of the decoded name (%d bytes) = %v", len(dec), IsStackCounter(dec))
+		}
+		if len(dec) > maxNameLen {
+			vstats.Label("decodedBeyondLimit")
+		}
 		vstats.Case(fmt.Sprintf("chain=%s depth=%d skip=%d prefix=%s len=%d trunc=%v", c15ChainString(chain), depth, skip, prefix, len(name), isTrunc),
 			strings.Contains(name, "\n\".") && len(chain) > 1, fmt.Sprintf("truncated:%v", isTrunc))
 	})
@@ -316,6 +322,19 @@ func c15DecodeProp(t *rapid.T) {
 			rapid.String(),
 			rapid.StringMatching(`[a-z]{1,5}(/[a-z.]{1,6}){0,3}(\n("|[a-z./]{1,12})\.[a-zA-Z().*\[\]]{1,10}:[+=]?[0-9]{1,3},\+0x[0-9a-f]{1,4}){0,6}\n?`),
 		).Draw(t, "s")
+		// one case in four at lengths around and beyond the counter-name limit: the decoded form of an
+		// encoded name is often longer than the limit, and callers classify decoded names
+		if k := rapid.IntRange(0, 3).Draw(t, "long"); k == 0 {
+			pad := rapid.SampledFrom([]int{4000, 4090, 4095, 4096, 4097, 5000, 9000}).Draw(t, "padTo")
+			filler := rapid.SampledFrom([]string{"x", "golang.org/x/verylongpath/pkg.F:1,+0x1\n", "\n", "\"."}).Draw(t, "filler")
+			for len(s) < pad {
+				s += filler
+			}
+			if rapid.Bool().Draw(t, "cutExact") {
+				s = s[:pad]
+			}
+			vstats.Label("decode:long")
+		}
 		var dec string
 		func() {
 			defer func() {
@@ -328,6 +347,9 @@ func c15DecodeProp(t *rapid.T) {
 		hasNL := strings.Contains(s, "\n")
 		if IsStackCounter(s) != hasNL {
 			t.Fatalf("IsStackCounter(%q) = %v", s, IsStackCounter(s))
+		}
+		if IsStackCounter(dec) != strings.Contains(dec, "\n") {
+			t.Fatalf("IsStackCounter(DecodeStack(%q)) = %v (decoded length %d)", s, IsStackCounter(dec), len(dec))
 		}
 		if !hasNL && dec != s {
 			t.Fatalf("DecodeStack changed an ordinary counter name %q -> %q", s, dec)
